@@ -244,6 +244,9 @@ pub struct Style {
     pub comment_in_text: Option<(usize, usize)>,
     /// (text node index, char offset): render that character as a numeric reference (hex if .2)
     pub charref: Option<(usize, usize, bool)>,
+    /// (text node index, char offsets, bits): the text in several pieces - bit k set: piece k is a CDATA section;
+    /// two plain pieces in a row are separated by a comment (bit 8+k set: a processing instruction)
+    pub multi: Option<(usize, Vec<usize>, u32)>,
     /// element index before which a comment / PI is inserted
     pub comment_before_elem: Option<usize>,
     pub pi_before_elem: Option<usize>,
@@ -297,6 +300,31 @@ impl Renderer<'_> {
             self.out.push_str(rest);
             self.out.push_str("]]>");
             return;
+        }
+        if let Some((i, offs, bits)) = &self.st.multi {
+            if *i == idx {
+                let mut cuts: Vec<usize> = offs.iter().map(|o| (*o).min(chars.len())).collect();
+                cuts.sort_unstable();
+                cuts.push(chars.len());
+                let (mut prev, mut last_plain) = (0, false);
+                for (k, cut) in cuts.into_iter().enumerate() {
+                    let piece: String = chars[prev..cut].iter().collect();
+                    prev = cut;
+                    if (bits >> k) & 1 == 1 && !piece.contains("]]>") {
+                        self.out.push_str("<![CDATA[");
+                        self.out.push_str(&piece);
+                        self.out.push_str("]]>");
+                        last_plain = false;
+                    } else {
+                        if last_plain {
+                            self.out.push_str(if (bits >> (8 + k)) & 1 == 1 { "<?verif pi?>" } else { "<!--x-->" });
+                        }
+                        esc_text(&piece, self.st.escape_all, &mut self.out);
+                        last_plain = true;
+                    }
+                }
+                return;
+            }
         }
         if let Some((i, off)) = self.st.comment_in_text {
             if i == idx {
